@@ -337,7 +337,7 @@ def generate_life(name, mode, objs, depth, seed, num=None, cap=None, theme="all"
 
 def _observe_fn(ro):
     from . import observe, project
-    return {"view": project.view_ro_xml(ro.xml), "obs": observe.observe(ro)}
+    return {"view": project.view_ro_xml(ro.xml), "obs": observe.observe_twice(ro)}
 
 
 def _expose_fn(m, cls):
